@@ -304,6 +304,17 @@ def _main(args, prop, cfg, tier, seed0, t0, scratch):
 
     if args.replay:
         rf = json.load(open(args.replay))
+        if rf.get("by_seed"):
+            # a run that killed its process has no recorded decision list: the seed replays it
+            results, crashes, _ = run_batch(binpath, scratch, prop, rf.get("tier", tier), rf["seed0"], 1, rf["legs"], 600,
+                                            extra_env=dict(cfg.get("env") or {}, SIM_FIRST=str(rf["k"])))
+            if crashes:
+                log("replay: the process crashed again:", first_panic_line(crashes[0]["stderr"]))
+                log(crashes[0]["stderr"][-2500:])
+                log("VIOLATION property=%s replay=%s" % (prop, args.replay))
+                return 1
+            log("replay: no crash")
+            return 0
         res, crashed, err, dec = replay_once(binpath, scratch, rf, want_log=True, timeout=600)
         cls = classes_of(res, crashed, err)
         want = (rf.get("violation") or {}).get("class")
@@ -361,7 +372,7 @@ def _main(args, prop, cfg, tier, seed0, t0, scratch):
         elif "crash" in r:
             # regenerate the decision list by replaying the seed in generation mode is not
             # possible after a crash; replay by seed instead
-            rf = {"prop": prop, "leg": leg, "seed": r["seed"], "tier": tier, "decisions": [], "by_seed": True}
+            rf = {"prop": prop, "leg": leg, "seed": r["seed"], "tier": tier, "decisions": [], "by_seed": True, "k": r["k"], "seed0": seed0, "legs": legs}
         else:
             # a violation without its replay file must never be dropped silently
             missing.append((leg, cls, r.get("seed")))
